@@ -51,17 +51,22 @@ Definition del (s : store) (k v : bytes) : result store :=
 Definition rdb_find (s : store) (k : bytes) : result bytes := find_data (get_or_nil s k).
 Definition rdb_for_each (s : store) (k : bytes) : list bytes * N := for_each_data (get_or_nil s k).
 
+(* xInRange && lastKey != nil && bytes.Equal(lastKey, pairs[xOffset].key) *)
+Definition dup_head (l : list kv) (last : option bytes) : bool :=
+  match l, last with
+  | (k, _) :: _, Some lk => bytes_eqb lk k
+  | _, _ => false
+  end.
+
 (* getAffectedKeys after batch.sort(): the merge loop.  a, d = remaining sorted
    pairs, last = lastKey (None = nil).  The keys are returned in push order. *)
 Fixpoint affected_loop (fuel : nat) (a d : list kv) (last : option bytes) : option (list bytes) :=
   match fuel with
   | O => None
   | S f =>
-      let a_dup := match a, last with (ka, _) :: _, Some lk => bytes_eqb lk ka | _, _ => false end in
-      if a_dup then affected_loop f (tl a) d last               (* skip duplicate in addedPairs *)
+      if dup_head a last then affected_loop f (tl a) d last               (* skip duplicate in addedPairs *)
       else
-        let d_dup := match d, last with (kd, _) :: _, Some lk => bytes_eqb lk kd | _, _ => false end in
-        if d_dup then affected_loop f a (tl d) last             (* skip duplicate in deletedPairs *)
+        if dup_head d last then affected_loop f a (tl d) last             (* skip duplicate in deletedPairs *)
         else
           match a, d with
           | (ka, _) :: a', (kd, _) :: d' =>
